@@ -423,7 +423,18 @@ def ev_realmp(case):
     return {"fails": fails, "n": 2, "states": 1, "transitions": 1, "traces": 1, "tags": {f"real-mp:N={N}:{'+'.join(script) or 'empty'}"}}
 
 
-EVALUATORS = {"realmp": ev_realmp, "schedules": ev_schedules, "exchange": ev_exchange, "pairs": ev_pairs, "arith": ev_arith}
+def ev_installed(case):
+    """A point installed by an exchange really is the chain's current point: the exact one-step kernel of the real chain from an
+    installed lattice state (replace_last + overwritten probability, as tempering_process does) - shared with C01's lattice evaluator."""
+    from checks.c01 import ev_rw
+
+    r = ev_rw(case)
+    # the law of the recorded step (C01's step-level oracle and its recorded known finding) is not C08's business
+    r["fails"] = [f for f in r["fails"] if not f["key"].startswith("steplaw/")]
+    return r
+
+
+EVALUATORS = {"installed": ev_installed, "realmp": ev_realmp, "schedules": ev_schedules, "exchange": ev_exchange, "pairs": ev_pairs, "arith": ev_arith}
 
 
 def run(ck):
@@ -489,6 +500,8 @@ def run(ck):
         ex.append(dict(chains="mixed", N=5, seed=2, presteps=1))
         ex.append(dict(chains="mixed", N=5, seed=2, presteps=1, ladder="unsorted"))
     ck.run_cases("exchange", ex, chunk=1)
+    ck.run_cases("installed", [dict(sampler=k, limits=lim, T=T, target=tg, shape=[6], alphabet=[-2.0, -1.0, 1.0, 2.0], weights=[0.15, 0.35, 0.35, 0.15], R=2, warm=2, warm_delta=1.0)
+                               for k in ("GibbsChain", "MetropolisChain", "PcaChain") for lim in (None,) for T in (1.0, 2.5) for tg in (("unimodal",) if q else ("unimodal", "bimodal", "ties"))], chunk=1)
     ck.run_cases("pairs", [dict(N=N, method=m) for N in range(1, 8 if not q else 7) for m in ("tight_pairs", "uniform_pairs")], chunk=1)
     ns = list(range(0, 61)) + [99, 100, 101, 130] if q else list(range(0, 131))
     sis = (1, 2, 3, 5, 7, 10, 12) if q else range(1, 13)
